@@ -4,9 +4,10 @@ import InToto.Honest
 # An honestly carried out supply chain verifies (C11, second half; C04 completeness)
 
 Every step of the layout is performed by its one authorised functionary (whose
-key may list subkeys, as gpg bundles do, provided no link file lies under a
-subkey's id), whose link file is where `in_toto_verify` looks for it, is signed with the key the
-layout lists, and names the step; the rules of the layout pass on those links
+key may list subkeys, as gpg bundles do), whose link file is where `in_toto_verify`
+looks for it - under the id of the authorised key or under the id of one of its
+subkeys, and under no other of those ids -, is signed with the key the
+layout lists (by the key itself or by the subkey), and names the step; the rules of the layout pass on those links
 (a "layout consistent with what was done": see `C04_rules_iff` for when a closed
 rule list passes); the inspections run and their rules pass. Then verification
 succeeds and returns the summary link of the chain — for any number of steps.
@@ -57,9 +58,11 @@ structure HonestStep (w : World) (l : Layout) (dir : Str) (step : Step) (r : Ste
   pubkeys_eq : step.pubkeys = [r.kid]
   threshold_eq : step.threshold = 1
   key_in_store : Dict.get? l.keys r.kid = some r.keyJ
-  sub_absent : ∀ sid ∈ subkeyIds (some r.keyJ), loadFile w (pathJoin dir (linkFileName r.name sid)) = none
+  file_cand : r.fileId ∈ r.kid :: subkeyIds (some r.keyJ)
+  others_absent : ∀ cid ∈ r.kid :: subkeyIds (some r.keyJ), cid ≠ r.fileId →
+    loadFile w (pathJoin dir (linkFileName r.name cid)) = none
   keyid_ok : keyidOf r.keyJ = .ok r.kid
-  file_loads : loadFile w (pathJoin dir (linkFileName r.name r.kid)) = some (.ok r.md)
+  file_loads : loadFile w (pathJoin dir (linkFileName r.name r.fileId)) = some (.ok r.md)
   sig_ok : r.md.verifySignature w.S w.nowSec r.keyJ = .ok
   payload_link : r.md.getPayload = .ok (.link r.lk)
   link_name : r.lk.name = some r.name
@@ -71,20 +74,38 @@ inductive HonestSteps (w : World) (l : Layout) (dir : Str) : List Step → List 
 
 /-! ## Stage by stage -/
 
-theorem loadStepLinks_absent (w : World) (dir name : Str) : ∀ (ids : List Str) (acc : Dict Str Metadata),
-    (∀ sid ∈ ids, loadFile w (pathJoin dir (linkFileName name sid)) = none) →
-    loadStepLinks w dir name ids acc = .ok acc
-  | [], _, _ => rfl
-  | sid :: rest, acc, h => by
-    simp only [loadStepLinks, h sid List.mem_cons_self]
-    exact loadStepLinks_absent w dir name rest acc (fun x hx => h x (List.mem_cons_of_mem _ hx))
+/-- Of the ids tried, exactly one has a file: the loaded dictionary has that one entry
+(however often the id occurs in the list). -/
+theorem loadStepLinks_one (w : World) (dir name fid : Str) (md : Metadata)
+    (hfile : loadFile w (pathJoin dir (linkFileName name fid)) = some (.ok md)) :
+    ∀ (ids : List Str) (acc : Dict Str Metadata),
+    (∀ cid ∈ ids, cid ≠ fid → loadFile w (pathJoin dir (linkFileName name cid)) = none) →
+    (acc = [] ∨ acc = [(fid, md)]) →
+    loadStepLinks w dir name ids acc = .ok (if fid ∈ ids then [(fid, md)] else acc)
+  | [], acc, _, _ => by simp [loadStepLinks]
+  | cid :: rest, acc, h, hacc => by
+    by_cases hc : cid = fid
+    · subst hc
+      have hins : Dict.insert acc cid md = [(cid, md)] := by
+        rcases hacc with rfl | rfl <;> simp [Dict.insert]
+      simp only [loadStepLinks, hfile, hins]
+      rw [loadStepLinks_one w dir name cid md hfile rest [(cid, md)]
+        (fun x hx => h x (List.mem_cons_of_mem _ hx)) (Or.inr rfl)]
+      simp
+    · simp only [loadStepLinks, h cid List.mem_cons_self hc]
+      rw [loadStepLinks_one w dir name fid md hfile rest acc
+        (fun x hx => h x (List.mem_cons_of_mem _ hx)) hacc]
+      have : (fid ∈ cid :: rest) ↔ fid ∈ rest := by
+        simp only [List.mem_cons]
+        exact ⟨fun o => o.resolve_left (fun e => hc e.symm), Or.inr⟩
+      simp only [this]
 
 theorem honest_loadStepLinks {w : World} {l : Layout} {dir : Str} {step : Step} {r : StepRecord}
     (h : HonestStep w l dir step r) :
-    loadStepLinks w dir r.name (candidateIds l step) [] = .ok [(r.kid, r.md)] := by
-  simp only [candidateIds, h.pubkeys_eq, List.flatMap_cons, List.flatMap_nil, List.append_nil, h.key_in_store,
-    loadStepLinks, h.file_loads, Dict.insert]
-  exact loadStepLinks_absent w dir r.name _ _ h.sub_absent
+    loadStepLinks w dir r.name (candidateIds l step) [] = .ok [(r.fileId, r.md)] := by
+  have hc : candidateIds l step = r.kid :: subkeyIds (some r.keyJ) := by
+    simp only [candidateIds, h.pubkeys_eq, List.flatMap_cons, List.flatMap_nil, List.append_nil, h.key_in_store]
+  rw [hc, loadStepLinks_one w dir r.name r.fileId r.md h.file_loads _ [] h.others_absent (Or.inl rfl), if_pos h.file_cand]
 
 theorem honest_load {w : World} {l : Layout} {dir : Str} : ∀ (steps : List Step) (rs : List StepRecord)
     (acc : Dict Str (Dict Str Metadata)), HonestSteps w l dir steps rs →
@@ -100,19 +121,26 @@ theorem honest_load {w : World} {l : Layout} {dir : Str} : ∀ (steps : List Ste
       have := (List.nodup_append.mp hnd).2.2 _ hm r.name List.mem_cons_self
       exact this rfl
     rw [Dict.insert_of_not_mem acc r.name _ hnot]
-    have hnd' : ((acc ++ [(r.name, [(r.kid, r.md)])]).map (·.1) ++ rs.map (·.name)).Nodup := by
+    have hnd' : ((acc ++ [(r.name, [(r.fileId, r.md)])]).map (·.1) ++ rs.map (·.name)).Nodup := by
       simpa [List.map_append, List.append_assoc] using hnd
     rw [honest_load rest rs _ hr hnd']
     simp [loadedOf, List.append_assoc]
 
 theorem honest_authorise {w : World} {l : Layout} {dir : Str} {step : Step} {r : StepRecord}
     (h : HonestStep w l dir step r) (subMap : Dict Str JVal) :
-    authorise l.keys subMap r.kid step.pubkeys = .ok (some (r.keyJ, r.kid)) := by
-  simp only [h.pubkeys_eq, authorise, h.key_in_store, if_true, h.keyid_ok, Except.map]
+    authorise l.keys subMap r.fileId step.pubkeys = .ok (some (r.keyJ, r.kid)) := by
+  by_cases hk : r.fileId = r.kid
+  · simp only [h.pubkeys_eq, authorise, h.key_in_store, hk, if_true, h.keyid_ok, Except.map]
+  · have hsub : r.fileId ∈ subkeyIds (some r.keyJ) := by
+      have := h.file_cand
+      simp only [List.mem_cons] at this
+      exact this.resolve_left hk
+    have hcont : (subkeyIds (some r.keyJ)).contains r.fileId = true := List.contains_iff_mem.mpr hsub
+    simp only [h.pubkeys_eq, authorise, h.key_in_store, hk, if_false, hcont, if_true, h.keyid_ok, Except.map]
 
 theorem honest_verifyStepLinks {w : World} {l : Layout} {dir : Str} {step : Step} {r : StepRecord}
     (h : HonestStep w l dir step r) (subMap : Dict Str JVal) :
-    verifyStepLinks w l subMap step r.name [(r.kid, r.md)] [] [] = .ok ([(r.kid, r.md)], [r.kid]) := by
+    verifyStepLinks w l subMap step r.name [(r.fileId, r.md)] [] [] = .ok ([(r.fileId, r.md)], [r.kid]) := by
   simp only [verifyStepLinks, honest_authorise h subMap, h.sig_ok, h.payload_link, nameBound, h.link_name,
     decide_true, Bool.not_true, Bool.false_eq_true, if_false, Dict.insert, List.nil_append]
 
@@ -123,8 +151,8 @@ theorem honest_sig {w : World} {l : Layout} {dir : Str} (subMap : Dict Str JVal)
     verifySigSteps w l subMap (loadedOf all) steps acc = .ok (acc ++ loadedOf rs)
   | [], [], acc, _, _, _ => by simp [verifySigSteps, loadedOf]
   | step :: rest, r :: rs, acc, .cons h hr, hsub, hnd => by
-    have hget : Dict.get? (loadedOf all) r.name = some [(r.kid, r.md)] :=
-      Dict.get?_map_of_mem (fun (x : StepRecord) => x.name) (fun (x : StepRecord) => [(x.kid, x.md)]) all r (hsub r List.mem_cons_self) hall
+    have hget : Dict.get? (loadedOf all) r.name = some [(r.fileId, r.md)] :=
+      Dict.get?_map_of_mem (fun (x : StepRecord) => x.name) (fun (x : StepRecord) => [(x.fileId, x.md)]) all r (hsub r List.mem_cons_self) hall
     simp only [verifySigSteps, h.name_eq, nameOf, hget, Option.getD_some, honest_verifyStepLinks h subMap,
       dedup, List.contains_nil, Bool.false_eq_true, if_false, h.threshold_eq]
     rw [if_neg (by simp)]
@@ -133,7 +161,7 @@ theorem honest_sig {w : World} {l : Layout} {dir : Str} (subMap : Dict Str JVal)
       simp only [List.map_cons] at hnd
       exact (List.nodup_append.mp hnd).2.2 _ hm r.name List.mem_cons_self rfl
     rw [Dict.insert_of_not_mem acc r.name _ hnot]
-    have hnd' : ((acc ++ [(r.name, [(r.kid, r.md)])]).map (·.1) ++ rs.map (·.name)).Nodup := by
+    have hnd' : ((acc ++ [(r.name, [(r.fileId, r.md)])]).map (·.1) ++ rs.map (·.name)).Nodup := by
       simpa [List.map_append, List.append_assoc] using hnd
     rw [honest_sig subMap all hall rest rs _ hr (fun x hx => hsub x (List.mem_cons_of_mem _ hx)) hnd']
     simp [loadedOf, List.append_assoc]
@@ -149,9 +177,9 @@ theorem honest_sublayouts {w : World} {l : Layout} {dir : Str}
       intro hm
       simp only [List.map_cons] at hnd
       exact (List.nodup_append.mp hnd).2.2 _ hm r.name List.mem_cons_self rfl
-    have hnd' : ((acc ++ [(r.name, [(r.kid, r.lk)])]).map (·.1) ++ rs.map (·.name)).Nodup := by
+    have hnd' : ((acc ++ [(r.name, [(r.fileId, r.lk)])]).map (·.1) ++ rs.map (·.name)).Nodup := by
       simpa [List.map_append, List.append_assoc] using hnd
-    have ih := honest_sublayouts recur dir' rest rs (acc ++ [(r.name, [(r.kid, r.lk)])]) hr hnd'
+    have ih := honest_sublayouts recur dir' rest rs (acc ++ [(r.name, [(r.fileId, r.lk)])]) hr hnd'
     simp only [loadedOf, List.map_cons, verifySublayouts, verifySublayoutsStep, h.payload_link, Dict.insert]
     rw [Dict.insert_of_not_mem acc r.name _ hnot]
     simp only [loadedOf] at ih
@@ -242,18 +270,35 @@ theorem honestRecord_sound {w : World} {l : Layout} {dir : Str} {step : Step} {r
         split at h
         · rename_i hk
           split at h
-          · rename_i md hfile
+          · rename_i fid more hfilt
             split at h
-            · rename_i hsig
+            · rename_i hall
               split at h
-              · rename_i lk hpay
+              · rename_i md hfile
                 split at h
-                · rename_i hln
-                  cases h
-                  refine ⟨hname, hpub, hthr, hkey, ?_, hk.2, hfile, hsig, hpay, hln⟩
-                  intro sid hsid
-                  have := List.all_eq_true.mp hk.1 sid hsid
-                  simpa using this
+                · rename_i hsig
+                  split at h
+                  · rename_i lk hpay
+                    split at h
+                    · rename_i hln
+                      cases h
+                      refine ⟨hname, hpub, hthr, hkey, ?_, ?_, hk, hfile, hsig, hpay, hln⟩
+                      · have hm : fid ∈ List.filter (fun cid => (loadFile w (pathJoin dir (linkFileName name cid))).isSome)
+                            (kid :: subkeyIds (some keyJ)) := by rw [hfilt]; exact List.mem_cons_self
+                        exact (List.mem_filter.mp hm).1
+                      · intro cid hcid hne
+                        cases hl : loadFile w (pathJoin dir (linkFileName name cid)) with
+                        | none => rfl
+                        | some v =>
+                          have hm : cid ∈ List.filter (fun cid => (loadFile w (pathJoin dir (linkFileName name cid))).isSome)
+                              (kid :: subkeyIds (some keyJ)) := List.mem_filter.mpr ⟨hcid, by simp [hl]⟩
+                          rw [hfilt] at hm
+                          rcases List.mem_cons.mp hm with e | hmore
+                          · exact absurd e hne
+                          · have := List.all_eq_true.mp hall cid hmore
+                            exact absurd (by simpa using this) hne
+                    · cases h
+                  · cases h
                 · cases h
               · cases h
             · cases h
